@@ -49,6 +49,13 @@ CHECKS = {
         "trusted: DuckDB MVCC for visibility; writes of the two connections never conflict by construction; not demanded: nested BEGIN, START TRANSACTION, which committed version a reader inside its own transaction sees",
         "explicit-state model checking (depth-bounded BFS over interleavings) against a committed-store + pending-set reference model",
     ),
+    "C20": (
+        "E1-bfs",
+        "model_checking",
+        "explicit-state BFS to fixpoint over enter/exit sequences of the real fakesnow.patch() for 13 target lists and 2 exit modes (identity of every target checked before/inside/after, connections closed, re-entry, nested refusal), the full product of patch() options, and a complete enumeration of every argv token sequence up to the length bound over a 14-token alphabet through the real fakesnow.cli.main against a reference splitter written from argparse's grammar",
+        "trusted: Python import machinery, unittest.mock; the reference argv splitter is differential-tested against a locally built argparse parser in selftest/test_c20.py; not demanded: exception types, argv[0], abbreviated long options",
+        "explicit-state model checking (BFS to fixpoint) of patch() + exhaustive bounded enumeration of argv sequences against a reference splitter",
+    ),
 }
 
 NOT_BUILT = "check not built yet in this round (planned per DESIGN.md §3); no claim is made"
